@@ -632,6 +632,19 @@ impl LinkRelay<()> {
 }
 
 impl LinkRelay<OutputHandle> {
+    /// The session stopped: release whoever waits for the outcome of a delivery of this link.
+    /// The deliveries stay in the unsettled map (the link may resume them on another session).
+    pub(crate) fn abandon_pending_deliveries(&self) {
+        if let LinkRelay::Sender { unsettled, .. } = self {
+            let mut guard = unsettled.write();
+            if let Some(map) = guard.as_mut() {
+                for message in map.values_mut() {
+                    message.abandon_waiter();
+                }
+            }
+        }
+    }
+
     pub(crate) async fn send(
         &mut self,
         frame: LinkFrame,
